@@ -108,7 +108,7 @@ func TestMakeKnown(t *testing.T) {
 		"later-key-ignored": {Docs: []Doc{{S: ptr("a"), I: i64(1)}, {S: ptr("b"), I: i64(1)}, {S: ptr("c"), I: i64(1)}}, Q: Query{Sub: Sub{Order: []OrderKey{{Field: "i"}, {Field: "s", Desc: true}}}}, G: g},
 		"minmax-null":       {Docs: []Doc{{I: i64(1)}, {I: i64(5)}, {}, {I: i64(3)}, {I: i64(2)}, {}}, Q: Query{Aggs: []Agg{{Fn: "_max", Field: "i"}, {Fn: "_min", Field: "i"}}}, G: g},
 		"avg-ne":            {Docs: []Doc{{I: i64(1)}, {I: i64(5)}, {I: i64(3)}}, Q: Query{Aggs: []Agg{{Fn: "_avg", Field: "i", Sub: Sub{Filter: ptr(leaf("i", "_ne", 1))}}}}, G: g},
-		"like-infix":        {Docs: []Doc{{S: ptr("a")}, {S: ptr("aa")}, {S: ptr("aba")}, {S: ptr("b")}}, Q: Query{Sub: Sub{Filter: ptr(leaf("s", "_like", "a%a"))}}, G: g},
+		"like-infix":        {Docs: []Doc{{S: ptr("a")}, {S: ptr("aa")}, {S: ptr("aba")}, {S: ptr("b")}}, Q: Query{Sub: Sub{Filter: ptr(leaf("s", "_like", "a%a")), Order: []OrderKey{{Field: "s"}}}}, G: g},
 		"sum-big":           {Big: true, Docs: []Doc{{I: i64(1<<53 + 1)}, {I: i64(1)}}, Q: Query{Aggs: []Agg{{Fn: "_sum", Field: "i"}}}, G: g},
 		"group-limit":       {Docs: []Doc{{S: ptr("a"), I: i64(1)}, {S: ptr("a"), I: i64(2)}, {S: ptr("a"), I: i64(3)}}, Q: Query{Grouped: true, GroupBy: []string{"s"}, Sub: Sub{Order: []OrderKey{{Field: "s"}}}, Member: &Sub{Limit: 1}}, G: g},
 		"agg-not":           {Docs: []Doc{{I: i64(1)}, {I: i64(5)}}, Q: Query{Aggs: []Agg{{Fn: "_count", Sub: Sub{Filter: &Filter{Kind: "not", Kids: []Filter{leaf("i", "_eq", 1)}}}}}}, G: g},
